@@ -37,6 +37,11 @@ def snap(s):
 
 
 def case(c):
+    if c.get("kind") == "rsmc":
+        prop = f"(Some {coqgen.gast(c['prop'])})" if c["prop"] else "None"
+        return (f"CRsmc {coqgen.gast(c['target'])} {coqgen.args([c['arg0']])} {prop} {'true' if c['kernel'] else 'false'} "
+                f"{coqgen.n(c['n'])} [" + "; ".join(coqgen.cm(o) for o in c["obss"]) + "] ["
+                + "; ".join(snap(s) for s in c["snaps"]) + "]")
     return ("CSmc [" + "; ".join(sop(o) for o in c["ops"]) + "] [" + "; ".join(snap(s) for s in c["snaps"]) + "]")
 
 
@@ -81,13 +86,20 @@ def run(ctx):
     for e, cnt in gen_errs.items():
         if "non-dyadic" not in e:
             worker_errs.append(f"pipeline raised: {e} (x{cnt})")
-    opsk = Counter(o["op"] + ("+prop" if o.get("prop") else "") for c in cases for o in c["ops"])
-    nt = len({json.dumps(c["ops"]) for c in cases if c["n"] >= 2 and len(c["ops"]) >= 2})
+    opsk = Counter(o["op"] + ("+prop" if o.get("prop") else "") for c in cases if "ops" in c for o in c["ops"])
+    rs = [c for c in cases if c.get("kind") == "rsmc"]
+    nt = len({json.dumps(c["ops"]) for c in cases if "ops" in c and c["n"] >= 2 and len(c["ops"]) >= 2}) \
+        + len({json.dumps([c["target"], c["prop"], c["obss"], c["n"], c["kernel"]]) for c in rs if c["n"] >= 2})
     return {"cases": cases, "bad": bad, "worker_errs": worker_errs, "coq_errs": coq_errs,
             "coverage": {"evaluations": len(cases), "distinct_nontrivial": nt,
                          "rule": "random pipelines init(default|custom proposal) then up to 4 of extend(default|custom)/rejuvenate(mh)/resample(categorical|systematic) "
                                  "on random @gen targets with 2-4 dyadic categorical sites (masses 1/2,1/4,1/4 rotated by parent-dependent parameters), random "
                                  "observation subsets (none..all), N in {1,2,3,4,6}, run under seed; every stage snapshot (per-particle choices, weight, retval, score; "
-                                 "estimate; lml) is judged in Coq; non-trivial = distinct pipeline with >=2 particles and >=2 ops",
-                         "histogram": {"ops": opsk, "particles": Counter(c["n"] for c in cases), "skipped": gen_errs},
+                                 "estimate; lml) is judged in Coq.  Every third case runs rejuvenation_smc itself (return_all_particles=True): feedback model, T in 2..4 steps of per-step "
+                                 "observations, N in {1,2,4,6,8}, 40% with a transition proposal, 35% with mh rejuvenation (1-2 moves); each time step's snapshot is judged as "
+                                 "'not resampled' (per-particle weight increment for its own previous return value, estimate unchanged, ESS >= N//2) or 'resampled' (weights 0, every "
+                                 "particle extends some previous particle, exp(lml) = estimate); non-trivial = distinct pipeline with >=2 particles and >=2 ops / rejuvenation_smc case with >=2 particles",
+                         "histogram": {"ops": opsk, "particles": Counter(c["n"] for c in cases), "skipped": gen_errs,
+                                       "rejuvenation_smc": {"cases": len(rs), "with_proposal": sum(1 for c in rs if c["prop"]), "with_kernel": sum(1 for c in rs if c["kernel"]),
+                                                            "steps_resampled": sum(sum(c["resampled"]) for c in rs), "steps_total": sum(c["T"] for c in rs)}},
                          "samples": cases[:1]}}
